@@ -83,26 +83,27 @@ structure FileChecksumResult where
   errors : List ChecksumResult
 deriving Repr, DecidableEq, Inhabited
 
-/-- the page loop of VerifyFileChecksums: `n` iterations left, next index `i`, accumulated result -/
-def verifyFileLoop (ck : Bytes → Nat → Nat) (data : Bytes) (baseBlock : Nat) :
-    Nat → Nat → FileChecksumResult → M FileChecksumResult
-  | 0, _, acc => pure acc
-  | n+1, i, acc => do
-    let page ← slice data (i * 8192) (i * 8192 + 8192)
+/-- the page loop of VerifyFileChecksums: `n` iterations left, next index `i`, `rest = data[i*PS:]`
+(cursor, see `takeM`), accumulated result -/
+def verifyFileLoop (ck : Bytes → Nat → Nat) (baseBlock : Nat) :
+    Nat → Nat → Bytes → FileChecksumResult → M FileChecksumResult
+  | 0, _, _, acc => pure acc
+  | n+1, i, rest, acc => do
+    let page ← takeM rest 8192
     if allZero page then
-      verifyFileLoop ck data baseBlock n (i + 1)
+      verifyFileLoop ck baseBlock n (i + 1) (rest.drop 8192)
         { acc with zeroBlocks := acc.zeroBlocks + 1, validBlocks := acc.validBlocks + 1 }
     else
       let res ← verifyPageChecksum ck page (mask32 (baseBlock + mask32 i))
       if res.valid then
-        verifyFileLoop ck data baseBlock n (i + 1) { acc with validBlocks := acc.validBlocks + 1 }
+        verifyFileLoop ck baseBlock n (i + 1) (rest.drop 8192) { acc with validBlocks := acc.validBlocks + 1 }
       else
-        verifyFileLoop ck data baseBlock n (i + 1)
+        verifyFileLoop ck baseBlock n (i + 1) (rest.drop 8192)
           { acc with invalidBlocks := acc.invalidBlocks + 1, errors := acc.errors ++ [res] }
 
 def verifyFileChecksums (ck : Bytes → Nat → Nat) (data : Bytes) (segmentNumber : Nat) : M FileChecksumResult :=
   let total := data.length / 8192
-  verifyFileLoop ck data (mask32 (segmentNumber * 131072)) total 0 ⟨total, 0, 0, 0, []⟩
+  verifyFileLoop ck (mask32 (segmentNumber * 131072)) total 0 data ⟨total, 0, 0, 0, []⟩
 
 /-! ### VerifyDataDirChecksums -/
 
